@@ -1039,6 +1039,11 @@ impl Circuit {
                 });
             }
             // second part of condition 4
+            if inputs.is_empty() {
+                // only possible for XOR gates: all inputs cancelled out
+                gate_map[index] = kind.empty_gate() ^ neg_out;
+                return Ok(());
+            }
             if let [l] = &inputs[..] {
                 gate_map[index] = *l ^ neg_out;
                 return Ok(());
